@@ -54,7 +54,10 @@ pub fn number_grammar() -> Vec<String> {
     for n in 1..=25 {
         ints.push(DIGITS[..n].to_string());
     }
-    ints.push("1".repeat(40));
+    // integer parts that end at, or one byte around, the 32-byte blocks of the number skippers
+    for n in [30usize, 31, 32, 33, 34, 40, 62, 63, 64, 65, 66, 95, 96, 97] {
+        ints.push((0..n).map(|i| (b'1' + (i % 9) as u8) as char).collect());
+    }
     const TAILS: &[&str] = &[
         "", ".5", ".0", ".25e1", "e1", "E+2", "e-3", ".5E-2", ".12345678901234567890", ".00000000000000000001", "e0", "e00", ".", ".e1", ".E", "e", "E", "e+", "e-",
         ".5.", ".5e", ".5e+", "..5", ".-5", "-", "+", ".5.5", "e1.5", "e1e1", ".x", "x", "e+x", ".5e1x", " .5", ". 5",
@@ -252,6 +255,11 @@ pub fn boundary_string(rng: &mut Rng) -> (String, String) {
 pub fn gen_string(rng: &mut Rng, long: bool) -> (String, String) {
     if long && rng.chance(1, 12) {
         return boundary_string(rng);
+    }
+    if rng.chance(1, 40) {
+        // text that mimics the position suffix of an error message, with ASCII and non-ASCII numerals
+        let d = *rng.pick(&[" at line 3 column 5", " at line \u{663}", "x at line 12 column \u{b2}", " at line \u{ff13} column 1", "line 1 column 2", " at line 99999999999999999999 column 1", " at line 1 column "]);
+        return (d.to_string(), format!("\"{d}\""));
     }
     let target = match rng.below(12) {
         0 => 0,
